@@ -295,6 +295,15 @@ class PoolSuite(Suite):
         nw = i["nw"]
         begins = [(k, t, idx) for k, t, idx in i["events"] if k in ("stop-begin", "destroy-begin")]
         first_stop = begins[0][2] if begins else None
+        # the stop() that took the thread list is the one whose critical section came first (with a contended mutex that need
+        # not be the one that was entered first): its critical section ends at the thread's first `unlock mx` after the begin
+        def cs_index(t, idx):
+            for n in range(idx + 1, len(out)):
+                w = out[n].split()
+                if len(w) >= 4 and w[0] == "s" and w[1] == str(t) and w[2] == "unlock" and w[3] == "mx":
+                    return n
+            return len(out) + idx
+        first_cs_begin = min(begins, key=lambda b: cs_index(b[1], b[2]))[2] if begins else None
         # 1. never twice, on a worker, cancellation only when the pool is being stopped
         for j, jb in sorted(i["jobs"].items()):
             kd = jb["kind"]
@@ -357,7 +366,7 @@ class PoolSuite(Suite):
             elif k in ("stop-begin", "destroy-begin"):
                 open_stops[t] = idx
             elif k in ("stop-end", "destroyed"):
-                is_first = begins and open_stops.get(t) == begins[0][2]
+                is_first = begins and open_stops.get(t) == first_cs_begin
                 open_stops.pop(t, None)
                 if is_first or k == "destroyed":
                     left = [w for w in range(nw) if w != t and w not in finished]
@@ -425,7 +434,7 @@ class PoolSuite(Suite):
                     st["client_stops" if t >= i["nw"] else "job_stops"] += 1
                 else:
                     st["destroy_by_client" if t >= i["nw"] else "destroy_by_job"] += 1
-            if begins and begins[0][1] < i["nw"]:
+            if begins and begins[0][1] < i["nw"]:   # (statistics only: by begin order)
                 st["self_detach"] += 1
             open_n = 0
             conc = False
